@@ -56,6 +56,16 @@ class Prop:
                 if b'\n' in m.strip(b'\r\n') and False:
                     continue
                 muts.append((name, label, m))
+        # limits of the parser: payload length and fragment count / number right at, below and above the bounds
+        long_bits = gen.payload_bits(rng, 'MessageType8', length=1008) * 2
+        for n in (198, 199, 200, 201, 202, 255, 256, 1000):
+            pl = gen.armor(long_bits)[0]
+            pl = (pl * (n // len(pl) + 1))[:n]
+            muts.append(('single', 'payload-len-%d' % n, gen.sentence('AIVDM', 1, 1, '', 'A', pl, 0)))
+            muts.append(('frag1', 'payload-len-%d' % n, gen.sentence('AIVDM', 2, 1, '3', 'A', pl, 0)))
+            muts.append(('frag2', 'payload-len-%d' % n, gen.sentence('AIVDM', 2, 2, '3', 'A', pl, 0)))
+        for cnt, num in ((99, 1), (100, 1), (101, 1), (100, 100), (100, 101), (101, 101), (255, 255), (256, 1), (9, 10)):
+            muts.append(('frag1', 'frag-%d-of-%d' % (num, cnt), gen.sentence('AIVDM', cnt, num, '3', 'A', '55P5TL01VIaAL@7W', 0)))
         # de-duplicate
         seen, uniq = set(), []
         for name, label, m in muts:
